@@ -73,6 +73,10 @@ func u8rs(c *ctx, before, after []byte, bufs string) {
 
 // FWR: wsflate.Writer / Reader reused through Reset (optionally after a destination error) vs fresh ones
 func fwr(c *ctx, msg1, msg2 []byte, failAt int, level int) {
+	if failAt == -2 {
+		// the second message repeats text of the first: a compressor that kept its window would refer back to it
+		msg2 = append(append([]byte(nil), msg1...), msg2...)
+	}
 	ctor := func(w io.Writer) wsflate.Compressor {
 		f, _ := flate.NewWriter(w, level)
 		if failAt == -2 { // a user-supplied compressor without Reset(io.Writer)
